@@ -15,7 +15,7 @@ MU0 = sc.mu_0
 
 LENGTH = {"um": 1e-6, "nm": 1e-9, "mm": 1e-3}
 FIELD = {"mT": 1e-3, "uT": 1e-6, "T": 1.0}
-CURRENT = {"uA": 1e-6, "nA": 1e-9, "mA": 1e-3}
+CURRENT = {"uA": 1e-6, "nA": 1e-9, "mA": 1e-3, "A": 1.0}
 
 
 # ----------------------------------------------------------------------------- SI scales
